@@ -5,6 +5,49 @@ Require Import Bytes Codes Local Local6531 Domain DomainSpec DomainProofs Ip Spe
 Import ListNotations.
 Local Open Scope Z_scope.
 
+Lemma scan_nonpos am rest z : forall s p, scan am rest s p z <= 0.
+Proof.
+  assert (Hfuel : forall n z, (length z <= n)%nat -> forall s p, scan am rest s p z <= 0).
+  { induction n as [|n IH]; intros x Hx s p.
+    - destruct x; [|cbn in Hx; lia]. destruct s; cbv; discriminate.
+    - destruct x as [|y x]; [destruct s; cbv; discriminate|]. cbn [length] in Hx. cbn [scan].
+      repeat match goal with
+             | |- context [if ?c then _ else _] => destruct c
+             | |- context [match ?v with _ => _ end] => destruct v
+             end; try (apply IH; cbn [length] in *; lia); try (cbv; discriminate); destruct s; cbv; discriminate. }
+  intros s p. apply (Hfuel (length z)). lia.
+Qed.
+
+Lemma scan6_nonpos g z : forall s p, scan6 g s p z <= 0.
+Proof.
+  assert (Hfuel : forall n z, (length z <= n)%nat -> forall s p, scan6 g s p z <= 0).
+  { induction n as [|n IH]; intros x Hx s p.
+    - destruct x; [|cbn in Hx; lia]. destruct s; cbv; discriminate.
+    - destruct x as [|y x]; [destruct s; cbv; discriminate|]. cbn [length] in Hx. cbn [scan6].
+      repeat match goal with
+             | |- context [if ?c then _ else _] => destruct c
+             | |- context [match ?v with _ => _ end] => destruct v
+             end; try (apply IH; cbn [length] in *; lia); try (cbv; discriminate); destruct s; cbv; discriminate. }
+  intros s p. apply (Hfuel (length z)). lia.
+Qed.
+
+Lemma local_of_nonpos g m l rest : local_of g m l rest <= 0.
+Proof.
+  destruct m as [am|]; cbn [local_of]; [unfold local|unfold local6531]; destruct l;
+    first [apply scan_nonpos | apply scan6_nonpos | (cbv; discriminate)].
+Qed.
+
+Lemma ascii_domain_nonpos us x : ascii_domain us x [] <= 0.
+Proof.
+  unfold ascii_domain. destruct x; [cbv; discriminate|].
+  assert (Hd : forall l ll nn aft, dscan us ll nn l aft <= 0).
+  { induction l as [|y l IH]; intros ll nn aft; cbn [dscan]; unfold dfinal.
+    - destruct (Nat.eqb ll 0); [cbv; discriminate|]. destruct nn; cbv; discriminate.
+    - repeat match goal with |- context [if ?c then _ else _] => destruct c end;
+        try apply IH; try (cbv; discriminate). }
+  repeat match goal with |- context [if ?c then _ else _] => destruct c end; try apply Hd; cbv; discriminate.
+Qed.
+
 Lemma utf8_domain_sound idn g tbl tld d :
   (forall a, idn d = IdnOk a -> nulfree a) ->
   0 <= fst (utf8_domain idn g tbl tld d) ->
@@ -27,3 +70,217 @@ Proof.
     specialize (Hneg (uscore g) a). rewrite Ea in Hneg. lia.
   - cbn in H. lia.
 Qed.
+
+(* ------------------------------------------------------------------ C01: the decision of the composers *)
+Section Decision.
+Variable idn : list byte -> idn_res.
+Variable g : cfg.
+Variable tbl : list tld_row.
+
+(* the library's own per-part verdicts *)
+Definition local_ok (m : mode) (l rest : list byte) : Prop := local_of g m l rest = 0.
+Definition host_ok (m : mode) (d : list byte) : Prop :=
+  match m with
+  | MA _ => ascii_domain (uscore g) d [] = 0
+  | M6531 => fst (utf8_domain idn g tbl false d) = 0
+  end.
+Definition literal_ok (d : list byte) : Prop := fst (check_ip d) = 0.
+Definition domain_ok (m : mode) (d : list byte) : Prop :=
+  match d with
+  | [] => False
+  | d0 :: _ => if beqb d0 LBR then literal_ok d else host_ok m d
+  end.
+
+Lemma check_ip_rc d : fst (check_ip d) = 0 \/ fst (check_ip d) < 0.
+Proof.
+  unfold check_ip. repeat match goal with |- context [if ?c then _ else _] => destruct c
+                          | |- context [match ?x with _ => _ end] => destruct x end; cbn; auto; right; reflexivity.
+Qed.
+
+Lemma email_split m t l d : ~ In AT d ->
+  email idn g tbl m t (l ++ AT :: d) =
+  match d with
+  | [] => res_rc E_DOMAIN_EMPTY
+  | d0 :: _ =>
+    if Nat.ltb 64 (length l) then res_rc E_LPART_TOO_LONG else
+    let r := local_of g m l (AT :: d) in
+    if negb (r =? 0) then res_rc r else
+    if beqb d0 LBR then ip_result l d else
+    match m with
+    | MA _ =>
+      let r := ascii_domain (uscore g) d [] in
+      if negb (r =? 0) then res_rc r
+      else mkres (if t then tld_verdict tbl d else 0) 0 false false true (Some l) (Some d)
+    | M6531 =>
+      let '(r, ir) := utf8_domain idn g tbl t d in
+      if 0 <=? r then mkres r ir false false true (Some l) (Some d)
+      else mkres r ir false false false None None
+    end
+  end.
+Proof.
+  intros Hat. unfold email. destruct (l ++ AT :: d) eqn:E; [destruct l; discriminate|]. rewrite <- E.
+  rewrite split_last_app by exact Hat. reflexivity.
+Qed.
+
+Lemma ip_result_rc l d : rc (ip_result l d) = fst (check_ip d).
+Proof. unfold ip_result. destruct (check_ip d) as [r [| |]]; reflexivity. Qed.
+
+Lemma utf8_domain_off_rc d : fst (utf8_domain idn g tbl false d) <= 0.
+Proof.
+  unfold utf8_domain. destruct d; [cbv; discriminate|]. destruct (idn (b :: d)); [|cbv; discriminate].
+  destruct (negb (ascii_domain (uscore g) a [] =? 0)) eqn:E; [|cbn; lia].
+  cbn [fst].
+  assert (Hneg : forall us x, ascii_domain us x [] <= 0).
+  { intros us x. unfold ascii_domain. destruct x; [cbv; discriminate|].
+    assert (Hd : forall l ll nn aft, dscan us ll nn l aft <= 0).
+    { induction l as [|y l IH]; intros ll nn aft; cbn [dscan]; unfold dfinal.
+      - destruct (Nat.eqb ll 0); [cbv; discriminate|]. destruct nn; cbv; discriminate.
+      - repeat match goal with |- context [if ?c then _ else _] => destruct c end;
+          try apply IH; try (cbv; discriminate). }
+    repeat match goal with |- context [if ?c then _ else _] => destruct c end; try apply Hd; cbv; discriminate. }
+  apply Hneg.
+Qed.
+
+Theorem email_decision m a :
+  rc (email idn g tbl m false a) = 0 <->
+  exists l d, a = l ++ AT :: d /\ ~ In AT d /\ (1 <= length l <= 64)%nat /\
+              local_ok m l (AT :: d) /\ domain_ok m d.
+Proof.
+  split.
+  - unfold email. destruct a as [|a0 a']; [cbn; discriminate|].
+    destruct (split_last AT (a0 :: a')) as [[l d]|] eqn:E; [|cbn; discriminate].
+    destruct (split_last_spec _ _ _ _ E) as (Ea & Hat).
+    destruct d as [|d0 d']; [cbn; discriminate|].
+    destruct (Nat.ltb_spec 64 (length l)) as [Hlong|Hlen]; [cbn; discriminate|].
+    destruct (local_of g m l (AT :: d0 :: d') =? 0) eqn:El; cbn [negb];
+      [|intros H; cbn [rc res_rc] in H; rewrite H in El; discriminate].
+    apply Z.eqb_eq in El. intros H.
+    exists l, (d0 :: d'). split; [exact Ea|]. split; [exact Hat|].
+    assert (Hl1 : (1 <= length l)%nat).
+    { destruct l; [|cbn; lia]. exfalso. destruct m as [am|]; cbn in El; [destruct am|]; discriminate. }
+    split; [lia|]. split; [exact El|].
+    unfold domain_ok. destruct (beqb d0 LBR).
+    + rewrite ip_result_rc in H. exact H.
+    + destruct m as [am|]; cbn [host_ok].
+      * destruct (ascii_domain (uscore g) (d0 :: d') [] =? 0) eqn:Ed; cbn [negb] in H.
+        -- apply Z.eqb_eq. exact Ed.
+        -- cbn [rc res_rc] in H. rewrite H in Ed. discriminate.
+      * destruct (utf8_domain idn g tbl false (d0 :: d')) as [r ir]. cbn [fst].
+        destruct (0 <=? r); cbn [rc] in H; exact H.
+  - intros (l & d & -> & Hat & Hlen & Hl & Hd).
+    rewrite email_split by exact Hat. unfold domain_ok in Hd. destruct d as [|d0 d']; [contradiction|].
+    assert (Nat.ltb 64 (length l) = false) as -> by (apply PeanoNat.Nat.ltb_ge; lia).
+    unfold local_ok in Hl. cbv zeta. rewrite Hl. cbn [Z.eqb negb].
+    destruct (beqb d0 LBR).
+    + rewrite ip_result_rc. exact Hd.
+    + destruct m as [am|]; cbn [host_ok] in Hd.
+      * rewrite Hd. reflexivity.
+      * destruct (utf8_domain idn g tbl false (d0 :: d')) as [r ir]. cbn [fst] in Hd. subst r. reflexivity.
+Qed.
+
+(* the forms that are always rejected, with their codes *)
+Theorem email_always_rejected m t :
+  rc (email idn g tbl m t []) = E_EMAIL_EMPTY /\
+  (forall a, a <> [] -> ~ In AT a -> rc (email idn g tbl m t a) = E_DOMAIN_EMPTY) /\
+  (forall l, rc (email idn g tbl m t (l ++ [AT])) = E_DOMAIN_EMPTY) /\
+  (forall d, d <> [] -> ~ In AT d -> rc (email idn g tbl m t (AT :: d)) = E_LPART_EMPTY).
+Proof.
+  split; [reflexivity|]. split; [|split].
+  - intros a Hne Hat. unfold email. destruct a; [congruence|].
+    destruct (split_last AT (b :: a)) as [[l d]|] eqn:E; [|reflexivity].
+    exfalso. apply split_last_spec in E as (E & _). apply Hat. rewrite E. apply in_or_app. right. left. reflexivity.
+  - intros l. rewrite email_split by (intros []). reflexivity.
+  - intros d Hne Hat. change (AT :: d) with ([] ++ AT :: d). rewrite email_split by exact Hat.
+    destruct d as [|d0 d']; [congruence|]. cbn [length Nat.ltb Nat.leb].
+    destruct m as [am|]; [destruct am|]; reflexivity.
+Qed.
+End Decision.
+
+
+(* ------------------------------------------------------------------ C16: the result record *)
+Section Record.
+Variable idn : list byte -> idn_res.
+Variable g : cfg.
+Variable tbl : list tld_row.
+
+Definition no_flags (r : result) : Prop :=
+  is_ipv4 r = false /\ is_ipv6 r = false /\ is_domain r = false /\ lpart r = None /\ domain r = None.
+
+Lemma res_rc_no_flags z : no_flags (res_rc z).
+Proof. repeat split. Qed.
+
+(* every result has one of three shapes *)
+Inductive shape (a : list byte) (r : result) : Prop :=
+| sh_invalid : no_flags r -> rc r < 0 -> shape a r
+| sh_host l d : a = l ++ AT :: d -> ~ In AT d -> hd NUL d <> LBR -> d <> [] ->
+    is_ipv4 r = false -> is_ipv6 r = false -> is_domain r = true -> lpart r = Some l -> domain r = Some d -> shape a r
+| sh_literal l c f : a = l ++ AT :: LBR :: c ++ [RBR] -> ~ In AT (LBR :: c ++ [RBR]) ->
+    check_ip (LBR :: c ++ [RBR]) = (0, f) -> (f = Fam4 \/ f = Fam6) -> rc r = 0 ->
+    is_ipv4 r = (match f with Fam4 => true | _ => false end) ->
+    is_ipv6 r = (match f with Fam6 => true | _ => false end) ->
+    is_domain r = false -> lpart r = Some l -> domain r = Some c -> shape a r.
+
+Lemma check_ip_cases d : hd NUL d = LBR ->
+  (exists r, check_ip d = (r, FamNone) /\ r < 0) \/
+  (exists c f, (f = Fam4 \/ f = Fam6) /\ check_ip d = (0, f) /\ d = LBR :: c ++ [RBR] /\
+               split_last RBR d = Some (LBR :: c, [])).
+Proof.
+  intros Hh. unfold check_ip. destruct (Nat.leb (length d) 8); [left; eexists; split; reflexivity|].
+  destruct (split_last RBR d) as [[p after]|] eqn:E; [|left; eexists; split; reflexivity].
+  destruct after as [|x y]; [|left; eexists; split; reflexivity].
+  apply split_last_spec in E as E'. destruct E' as (Ed & _).
+  assert (Hp : exists c, p = LBR :: c).
+  { destruct p as [|p0 p']; [subst d; cbn in Hh; discriminate Hh|]. subst d. cbn in Hh. subst p0. eauto. }
+  destruct Hp as (c & ->). cbn [tl].
+  assert (Hd : d = LBR :: c ++ [RBR]) by (rewrite Ed; reflexivity).
+  repeat match goal with |- context [if ?x then _ else _] => destruct x end;
+    first [ left; eexists; split; reflexivity
+          | right; exists c; eexists; split; [|split; [reflexivity|split; [exact Hd|reflexivity]]]; auto ].
+Qed.
+
+Theorem email_shape m t a : shape a (email idn g tbl m t a).
+Proof.
+  unfold email. destruct a as [|a0 a']; [apply sh_invalid; [apply res_rc_no_flags|reflexivity]|].
+  destruct (split_last AT (a0 :: a')) as [[l d]|] eqn:E; [|apply sh_invalid; [apply res_rc_no_flags|reflexivity]].
+  destruct (split_last_spec _ _ _ _ E) as (Ea & Hat).
+  destruct d as [|d0 d']; [apply sh_invalid; [apply res_rc_no_flags|reflexivity]|].
+  destruct (Nat.ltb 64 (length l)); [apply sh_invalid; [apply res_rc_no_flags|reflexivity]|].
+  destruct (local_of g m l (AT :: d0 :: d') =? 0) eqn:El; cbn [negb].
+  2:{ apply sh_invalid; [apply res_rc_no_flags|]. cbn [rc res_rc]. apply Z.eqb_neq in El.
+      pose proof (local_of_nonpos g m l (AT :: d0 :: d')). lia. }
+  destruct (beqb d0 LBR) eqn:Eb.
+  - apply beqb_eq in Eb. subst d0. unfold ip_result.
+    destruct (check_ip_cases (LBR :: d') eq_refl) as [(r & Hci & Hr) | (c & f & Hf & Hci & Hd & Hsl)]; rewrite Hci.
+    + apply sh_invalid; [apply res_rc_no_flags|exact Hr].
+    + rewrite Hsl. cbn [tl]. rewrite Hd in Hci, Hat, Ea.
+      destruct Hf as [-> | ->]; apply (sh_literal _ _ l c _ Ea Hat Hci); auto.
+  - assert (Hh : hd NUL (d0 :: d') <> LBR).
+    { cbn. intros ->. assert (beqb LBR LBR = true) by (apply beqb_eq; reflexivity). congruence. }
+    destruct m as [am|].
+    + destruct (ascii_domain (uscore g) (d0 :: d') [] =? 0) eqn:Ed; cbn [negb].
+      * apply (sh_host _ _ l (d0 :: d')); auto. discriminate.
+      * apply sh_invalid; [apply res_rc_no_flags|]. cbn [rc res_rc]. apply Z.eqb_neq in Ed.
+        pose proof (ascii_domain_nonpos (uscore g) (d0 :: d')). lia.
+    + destruct (utf8_domain idn g tbl t (d0 :: d')) as [r ir].
+      destruct (0 <=? r) eqn:Er.
+      * apply (sh_host _ _ l (d0 :: d')); auto. discriminate.
+      * apply sh_invalid; [repeat split|]. cbn [rc]. apply Z.leb_gt in Er. exact Er.
+Qed.
+
+(* the result code: 0 without TLD checking, a class 1..9 or a negative code with it *)
+Theorem host_rc_tld_off m a : let r := email idn g tbl m false a in is_domain r = true -> rc r = 0.
+Proof.
+  cbv zeta. unfold email. destruct a as [|a0 a']; [discriminate|].
+  destruct (split_last AT (a0 :: a')) as [[l d]|]; [|discriminate].
+  destruct d as [|d0 d']; [discriminate|].
+  destruct (Nat.ltb 64 (length l)); [discriminate|].
+  destruct (negb (local_of g m l (AT :: d0 :: d') =? 0)); [discriminate|].
+  destruct (beqb d0 LBR).
+  - unfold ip_result. destruct (check_ip (d0 :: d')) as [r [| |]]; discriminate.
+  - destruct m as [am|].
+    + destruct (negb (ascii_domain (uscore g) (d0 :: d') [] =? 0)); [discriminate|reflexivity].
+    + pose proof (utf8_domain_off_rc idn g tbl (d0 :: d')) as Hr.
+      destruct (utf8_domain idn g tbl false (d0 :: d')) as [r ir]. cbn [fst] in Hr.
+      destruct (0 <=? r) eqn:Er; [|discriminate]. intros _. cbn [rc]. apply Z.leb_le in Er. lia.
+Qed.
+End Record.
